@@ -55,10 +55,20 @@ func Merge(d1, d2 *Dictionary) (*Dictionary, error) {
 		newDict.Vendors = make([]*Vendor, 0, len(d1.Vendors)+len(d2.Vendors))
 		newDict.Vendors = append(newDict.Vendors, d1.Vendors...)
 		for _, vendor := range d2.Vendors {
-			existingVendor := VendorByNumber(newDict.Vendors, vendor.Number)
-			if existingVendor != nil {
-				existingVendor.Attributes = append(existingVendor.Attributes, vendor.Attributes...)
-				existingVendor.Values = append(existingVendor.Values, vendor.Values...)
+			existingIndex := -1
+			for i, existingVendor := range newDict.Vendors {
+				if existingVendor.Number == vendor.Number {
+					existingIndex = i
+					break
+				}
+			}
+			if existingIndex >= 0 {
+				// Extend a copy of the vendor (with slices of its own): the vendor found here is
+				// shared with d1 (or d2), which Merge must not modify.
+				mergedVendor := *newDict.Vendors[existingIndex]
+				mergedVendor.Attributes = append(append([]*Attribute(nil), mergedVendor.Attributes...), vendor.Attributes...)
+				mergedVendor.Values = append(append([]*Value(nil), mergedVendor.Values...), vendor.Values...)
+				newDict.Vendors[existingIndex] = &mergedVendor
 			} else {
 				newDict.Vendors = append(newDict.Vendors, vendor)
 			}
